@@ -141,6 +141,11 @@ def render(t, v, top=True):
                     rs = "(" + rs + ")"
                 if v["mul"] == " ":
                     s = ls + ("   " if v["ws"] else " ") + rs
+                elif v["mul"] == "tight":
+                    # no blank at all: the left operand ends with ')' or a unicode exponent, e.g. '6/(2)3', 'kg/m²s', '(m)s'
+                    if not (ls.endswith(")") or (ls[-1] in "⁰¹²³⁴⁵⁶⁷⁸⁹" and not rs[0].isdigit())):
+                        ls = "(" + ls + ")"
+                    s = ls + rs
                 else:  # against a parenthesis
                     if not rs.startswith("("):
                         rs = "(" + rs + ")"
@@ -156,7 +161,7 @@ def render(t, v, top=True):
 
 
 VARIANTS = []
-for mul in ("*", " ", "paren"):
+for mul in ("*", " ", "paren", "tight"):
     for pw in ("**", "^", "sup"):
         for red in (False, True):
             for ws in (False, True):
@@ -296,6 +301,8 @@ def _classify(tree, variant):
         return "juxtaposition_against_parenthesis"
     if variant["mul"] == " ":
         return "juxtaposition_by_blank"
+    if variant["mul"] == "tight":
+        return "juxtaposition_without_blank"
     return f"pow={variant['pow']}"
 
 
